@@ -155,7 +155,12 @@ theorem switched_mono (env : Env) : ∀ fuel,
           split <;> exact this
     · intro e s h
       cases e with
-      | seq i es => simp only [parseNode]; exact ihS es s.pos s h
+      | seq i es =>
+        simp only [parseNode]
+        have := ihS es s.pos s h
+        split
+        · exact this
+        · exact this
       | choice i es => simp only [parseNode]; exact ihC es s h
       | action i a e' =>
         simp only [parseNode]
@@ -428,7 +433,9 @@ theorem gate_sound (env : Env) (g : Gate) (ok : Array Bool)
         simp only [nodeId, dead] at hidEq
         simp only [parseNode, nodeId]
         obtain ⟨h1, h2⟩ := ihS es s s.pos hc.2 h
-        exact ⟨h1, fun hsw hid => h2 hsw (by rw [← hidEq]; exact hid)⟩
+        split
+        · exact ⟨good_same' g _ h1 _ rfl rfl rfl rfl rfl rfl, fun _ _ => by simp⟩
+        · exact ⟨h1, fun hsw hid => h2 hsw (by rw [← hidEq]; exact hid)⟩
       | choice i es =>
         simp only [chk, Bool.and_eq_true, beq_iff_eq] at hc
         simp only [nodeId, dead] at hidEq
